@@ -129,6 +129,18 @@ CHECKS = {
             "request; timing: events are collected after the connection went quiet and was half-closed.",
             "TLA+ spec + TLC exhaustive segmentations, replay of cut sets on real services, expected events = RefParse",
             "DESIGN.md §3 C04"),
+    "C02": ("exploration",
+            "CanaryParse.tla states what a correct stack does with a frame (classification by the field relations the parsers test, "
+            "a connection table of bounded capacity that drops newcomers when full) with the invariant that no frame ends the "
+            "listener; TLC enumerates the field lattice (IHL 0..15 x total length around every bound x protocol; TCP segment length "
+            "x data offset 0..15 x flags x peer reachability; every option layout of <= 3 bytes over the boundary alphabet; UDP/ICMP "
+            "lengths; ~15k records); each record is built into bytes and pushed through the REAL Start loop of a real Canary (hook "
+            "VerifNew: socketpair instead of AF_PACKET), plus seeded random-byte frames and SYN floods across the table capacity; "
+            "after every frame a well-formed UDP probe must produce its event; a dying child process is attributed to the frame in flight.",
+            "Exploration, not proof: frames outside the lattice and the random sample are not tried; ARP handling is unreachable "
+            "from the configuration file and is left out; the quick tier reaches the table boundary by pre-filling it through a hook.",
+            "TLA+ spec as generator of the frame lattice + liveness oracle, replay through the real receive loop in a crash-isolated child",
+            "DESIGN.md §3 C02"),
 }
 
 NOT_YET = "check not built yet in this session (see DESIGN.md §10 for the order of construction)"
